@@ -1,6 +1,7 @@
 import Pearl.Model.Fs
 import Pearl.Props.C01
 import Pearl.Proofs.BlobLemmas
+import Pearl.Proofs.CrcForce
 /-
 Helper definitions and lemmas for the file / trace layer (L6, `Pearl/Model/Fs.lean`).
 
@@ -2000,11 +2001,8 @@ theorem genLoop_length : ∀ (n : Nat) (x : UInt64) (acc : List UInt8), (genLoop
     rw [genLoop_length n]
     simp only [List.length_cons]; omega
 
-theorem genData_length (len seed : Nat) : (genData len seed).length = len := by
-  unfold genData
-  split
-  · simp_all
-  · rw [genLoop_length]; simp only [List.length_cons, List.length_nil]; omega
+theorem genData_length (len seed : Nat) : (genData len seed).length = len :=
+  genData_length' len seed
 
 theorem tailOf_length (off : Nat) (Rs : List Record) :
     (tailOf off Rs).length =
